@@ -243,6 +243,11 @@ func CheckC14(l *Lab, verifDir string) int {
 		}
 		close(jobs)
 		wg.Wait()
+		for bi, be := range backends {
+			if be != nil {
+				c14Replay(rep, be, c14DBs[bi], mode, l.Pick(150, 700))
+			}
+		}
 		for _, p := range procs {
 			if !p.Alive() {
 				rep.Violate("C14/auth-service-exited", "rdpgw-auth exited during the NTLM histories", trunc(p.LogText(), 3000))
@@ -463,4 +468,55 @@ func c14History(rep *Report, be ntlmBackend, db c14DB, seed int64, id int, mode 
 	if id%997 == 0 {
 		rep.Sample(map[string]any{"mode": []string{"in-process", "grpc-real-service"}[mode], "database": db.users, "history": trace})
 	}
+}
+
+// c14Replay: one authenticate message that was accepted is recorded and presented again in a long
+// row of other sessions, each directly after that session's own negotiate: every session has its own
+// challenge, so the recorded message must never be accepted again (challenges of all sessions are
+// also compared: a challenge that comes back is what would make the replay work).
+func c14Replay(rep *Report, be ntlmBackend, db c14DB, mode, n int) {
+	u := db.users[0]
+	neg := func(sess string) (*NTLMChallenge, bool) {
+		r, err := be.NTLM(sess, B64(NTLMType1()))
+		if err != nil || r == nil || r.NtlmMessage == "" {
+			return nil, false
+		}
+		raw, err := decodeStd(r.NtlmMessage)
+		if err != nil {
+			return nil, false
+		}
+		ch, err := ParseNTLMType2(raw)
+		return ch, err == nil
+	}
+	s0 := fmt.Sprintf("replay-m%d-origin", mode)
+	ch, ok := neg(s0)
+	if !ok {
+		rep.Inconclusive("replay history: no challenge")
+		return
+	}
+	t3 := NTLMType3(Type3Opts{User: u.Name, Password: u.Password, Workstation: "WS", ServerChallenge: ch.ServerChallenge, TargetInfo: ch.TargetInfo, FlipProofBit: -1, FlipBlobBit: -1})
+	r, err := be.NTLM(s0, B64(t3))
+	if err != nil || r == nil || !r.Authenticated {
+		rep.Inconclusive("replay history: the recorded exchange itself was not accepted")
+		return
+	}
+	seen := map[string]int{string(ch.ServerChallenge): 0}
+	for k := 1; k <= n; k++ {
+		sess := fmt.Sprintf("replay-m%d-%d", mode, k)
+		c2, ok := neg(sess)
+		if !ok {
+			continue
+		}
+		if first, dup := seen[string(c2.ServerChallenge)]; dup {
+			rep.Violate("C14/server-challenge-repeats", fmt.Sprintf("negotiate number %d was given the same server challenge as negotiate number %d (%x)", k, first, c2.ServerChallenge), nil)
+		}
+		seen[string(c2.ServerChallenge)] = k
+		r, err := be.NTLM(sess, B64(t3))
+		rep.Count("replay_presentations", 1)
+		if err == nil && r != nil && r.Authenticated {
+			rep.Violate("C14/authenticated-without-proof/replay-in-later-session", fmt.Sprintf("an authenticate message recorded in one session was accepted as %q in another session %d negotiates later", r.Username, k), nil)
+			break
+		}
+	}
+	rep.Eval(HashStr("replay-row", mode, u.Name, len(seen)))
 }
